@@ -299,6 +299,21 @@ def update_metadata_three(t1: int, u1: int, u2: int, u3: int, tgt1: int, tgt2: i
   return _update_metadata(1, t1c, t2, us, tgts, as_proto, args)
 
 
+_BAD_IDS = {4: '0', 5: 'abc', 6: '-1', 7: '1/x'}      # targets 4..7: trial ids no trial can have
+
+
+def update_metadata_bad_id(t1: int, u1: int, u2: int, bad: int, first: bool, tgt: int) -> bool:
+  """
+  pre: 0 <= t1 <= 2 and 0 <= u1 <= 2 and 0 <= u2 <= 2 and 4 <= bad <= 7 and 0 <= tgt <= 1
+  post: _
+  """
+  args = (t1, u1, u2, bad, first, tgt)
+  t1, u1, u2, bad, first, tgt = conc(t1, 0, 2), conc(u1, 0, 2), conc(u2, 0, 2), conc(bad, 4, 7), cbool(first), conc(tgt, 0, 1)
+  # one valid item (study-level or trial 1) and one item naming an impossible trial id, in either order
+  us, tgts = ([u2, u1], [bad, tgt]) if first else ([u1, u2], [tgt, bad])
+  return _update_metadata(1, [0, ACTIVE, SUCCEEDED][t1], 1, us, tgts, False, args)
+
+
 def _update_metadata(study_state, t1, t2, us, tgts, as_proto, args):
   with NoTracing():
     ram, sql = _pair(study_state, t1, 0, t2, md=True)
@@ -311,7 +326,7 @@ def _update_metadata(study_state, t1, t2, us, tgts, as_proto, args):
         ns, key = _MD_KEYS[u]
         d = req.delta.add()
         if tg:
-          d.trial_id = str(tg)
+          d.trial_id = _BAD_IDS.get(tg, str(tg))
         d.metadatum.key, d.metadatum.ns = key, ns
         if as_proto and i == 0:
           d.metadatum.proto.Pack(study_pb2.Trial())        # an all-defaults message: its serialization is empty
